@@ -114,3 +114,58 @@ where
         write_index(&mut self.inner, index).await
     }
 }
+
+#[cfg(test)]
+mod tests {
+    use noodles_core::Position;
+
+    use super::*;
+    use crate::binning_index::{
+        Indexer,
+        index::reference_sequence::{bin::Chunk, index::BinnedIndex},
+    };
+
+    #[tokio::test]
+    async fn test_write_index() -> Result<(), Box<dyn std::error::Error>> {
+        let mut indexer = Indexer::<BinnedIndex>::default();
+
+        indexer.add_record(
+            Some((
+                0,
+                Position::try_from(8)?,
+                Position::try_from(1 << 20)?,
+                true,
+            )),
+            Chunk::new(
+                bgzf::VirtualPosition::from(144),
+                bgzf::VirtualPosition::from(233),
+            ),
+        )?;
+
+        indexer.add_record(
+            Some((0, Position::try_from(13)?, Position::try_from(21)?, true)),
+            Chunk::new(
+                bgzf::VirtualPosition::from(233),
+                bgzf::VirtualPosition::from(377),
+            ),
+        )?;
+
+        let index = indexer.build(1);
+
+        let mut writer = Writer::new(Vec::new());
+        writer.write_index(&index).await?;
+        writer.shutdown().await?;
+        let actual = writer.into_inner().into_inner();
+
+        let mut writer = crate::io::Writer::new(Vec::new());
+        writer.write_index(&index)?;
+        let expected = writer.into_inner().finish()?;
+
+        assert_eq!(actual, expected);
+
+        let mut reader = crate::r#async::io::Reader::new(&actual[..]);
+        assert_eq!(reader.read_index().await?, index);
+
+        Ok(())
+    }
+}
